@@ -664,6 +664,8 @@ def ecompass(a: np.ndarray, m: np.ndarray, frame: str = 'ENU', representation: s
         raise ValueError("Both vectors must have the same shape.")
     if len(a) != 3:
         raise ValueError("Input vectors must have exactly 3 elements.")
+    if not np.linalg.norm(a) > 0 or not np.linalg.norm(m) > 0:
+        raise ValueError("Input vectors must be non-zero.")
     m /= np.linalg.norm(m)
     Rz = a/np.linalg.norm(a)
     if frame.upper() == 'NED':
